@@ -1,5 +1,181 @@
+import NessaiVerif.Model.Pool
 import NessaiVerif.Driver.Parse
-/- stub: replaced by the owner of this area -/
+/-
+Line protocol of the `pool` area (C09).  Values: `nan`, `-inf`, `inf` or a rational `p/q` (the exact value of a
+float64).  A candidate is `id:inb:logq:logp`; an INS candidate is
+`id:inCube:finCheck:finPrime:finJ:finJinv:logP:logU:logQ:qAllNaN:qAllPinf`.  Lists `[a,b]`, nested lists `[[a],[b,c]]`.
+
+  pool plain  <strictZ> <N> <minLogQ|none> <batches> <uniforms>
+  pool acc    <strictZ> <N> <maxSamples> <minLogQ|none> <batches> <gates> <uniforms>
+  pool rej    <cands> <uniforms>
+  pool ana    <cands>
+  pool newpts <N> <batches>
+  pool ins    <n> <batches>
+        → `pool=[ids] ll=[ids] nacc= nprop= batches= rands= broke=` | `crash batches=` (IndexError quirk) | `exhausted`
+  pool sess <keys> <ops e.g. ddidd> <popspec> …      popspec = the above with `~` instead of spaces (`plain~N~…`)
+        → per op, joined by `|`: `[pop(<population>)>]h:<count>:<idx>:<id>` | `ok` | `err=index` | `exhausted`
+  pool perm <keys> <n>  → the scripted permutation
+  pool ev sub|gt|ge|fmax|pymax a b ; pool ev npmax|nanmax [..]   (primitive semantics, checked against NumPy)
+-/
 namespace NessaiVerif.Driver.Pool
-def handle (_toks : List String) : String := "bad-op"
+open NessaiVerif NessaiVerif.Parse NessaiVerif.Pool
+
+def parseEV? (s : String) : Option EV :=
+  if s == "nan" then some .nan
+  else if s == "-inf" then some .ninf
+  else if s == "inf" then some .pinf
+  else (parseRat? s).map .fin
+
+def showEV : EV → String
+  | .nan => "nan"
+  | .ninf => "-inf"
+  | .pinf => "inf"
+  | .fin q => showRat q
+
+def parseCand? (s : String) : Option Cand :=
+  match s.splitOn ":" with
+  | [i, b, q, p] => do
+      let i ← parseNat? i
+      let b ← parseBool? b
+      let q ← parseEV? q
+      let p ← parseEV? p
+      some { id := i, inb := b, logq := q, logp := p }
+  | _ => none
+
+def parseICand? (s : String) : Option ICand :=
+  match s.splitOn ":" with
+  | [i, c, f1, f2, f3, f4, lp, lu, lq, a, b] => do
+      let i ← parseNat? i
+      let c ← parseBool? c
+      let f1 ← parseBool? f1
+      let f2 ← parseBool? f2
+      let f3 ← parseBool? f3
+      let f4 ← parseBool? f4
+      let lp ← parseEV? lp
+      let lu ← parseEV? lu
+      let lq ← parseEV? lq
+      let a ← parseBool? a
+      let b ← parseBool? b
+      some { id := i, inCube := c, finCheck := f1, finPrime := f2, finJ := f3, finJinv := f4,
+             logP := lp, logU := lu, logQ := lq, qAllNaN := a, qAllPinf := b }
+  | _ => none
+
+def showSlot : Option Cand → String
+  | none => "_"
+  | some c => toString c.id
+
+def showPopulation (p : Population) : String :=
+  if p.crashed then s!"crash batches={p.batches}" else
+  s!"pool={showList showSlot p.pool} ll={showList showSlot p.llCalls} nacc={p.nAcc} nprop={p.nProp} " ++
+  s!"batches={p.batches} rands={p.rands} broke={showBool p.broke}"
+
+def showPop? : Option Population → String
+  | none => "exhausted"
+  | some p => showPopulation p
+
+/-- run one population spec (already split into tokens) -/
+def population? (toks : List String) : Option (Option Population) :=
+  match toks with
+  | ["plain", z, n, t, b, u] => do
+      let z ← parseBool? z
+      let n ← parseNat? n
+      let t ← parseOpt? parseEV? t
+      let b ← parseList? (parseList? parseCand?) b
+      let u ← parseList? (parseList? parseEV?) u
+      some (populatePlain z n t b u)
+  | ["acc", z, n, ms, t, b, g, u] => do
+      let z ← parseBool? z
+      let n ← parseNat? n
+      let ms ← parseNat? ms
+      let t ← parseOpt? parseEV? t
+      let b ← parseList? (parseList? parseCand?) b
+      let g ← parseList? parseBool? g
+      let u ← parseList? (parseList? parseEV?) u
+      some (populateAcc z n ms t b g u)
+  | ["rej", c, u] => do
+      let c ← parseList? parseCand? c
+      let u ← parseList? parseEV? u
+      some (some (populateRejection c u))
+  | ["ana", c] => do
+      let c ← parseList? parseCand? c
+      some (some (populateAnalytic c))
+  | _ => none
+
+def parseOps? (s : String) : Option (List Op) :=
+  s.toList.mapM fun ch => if ch == 'd' then some Op.draw else if ch == 'i' then some Op.inval else none
+
+def slotId : Option Cand → Nat
+  | none => 999999
+  | some c => c.id
+
+def showOut : Out → String
+  | .handed c i id => s!"h:{c}:{i}:{showOpt toString id}"
+  | .ok => "ok"
+  | .errIndex => "err=index"
+  | .exhausted => "exhausted"
+
+/-- session: the handout state machine of the model, fed by the populations of the model -/
+def runSession (keys : List Int) : HState → List (Option Population) → List Op → List String
+  | _, _, [] => []
+  | st, pops, op :: ops =>
+    match op, st.populated, pops with
+    | .draw, false, some p :: rest =>
+      if p.crashed then
+        -- the exception leaves `indices = []`, `populated = False`
+        s!"crash batches={p.batches}" :: runSession keys { st with indices := [], populated := false } rest ops
+      else
+      let pop : Pop := { pool := p.pool.map slotId, indices := permOf keys p.pool.length }
+      let (st', _, o) := hstep st [pop] .draw
+      s!"pop({showPopulation p})>{showOut o}" :: runSession keys st' rest ops
+    | .draw, false, none :: _ => ["exhausted"]
+    | _, _, _ =>
+      let (st', _, o) := hstep st [] op
+      showOut o :: runSession keys st' pops ops
+
+def handle (toks : List String) : String :=
+  match toks with
+  | "sess" :: k :: ops :: specs =>
+    match parseList? parseInt? k, parseOps? ops, specs.mapM (fun s => population? (s.splitOn "~")) with
+    | some k, some ops, some pops => "|".intercalate (runSession k {} pops ops)
+    | _, _, _ => "bad-op"
+  | ["newpts", n, b] =>
+    match parseNat? n, parseList? (parseList? parseCand?) b with
+    | some n, some b =>
+      match newPoints n b with
+      | none => "exhausted"
+      | some arr => "pts=" ++ showList showSlot arr
+    | _, _ => "bad-op"
+  | ["ins", n, b] =>
+    match parseNat? n, parseList? (parseList? parseICand?) b with
+    | some n, some b =>
+      match insDraw n b with
+      | none => "exhausted"
+      | some (s, k) => s!"ret={showList (fun c => toString c.id) s} batches={k}"
+    | _, _ => "bad-op"
+  | ["perm", k, n] =>
+    match parseList? parseInt? k, parseNat? n with
+    | some k, some n => showList toString (permOf k n)
+    | _, _ => "bad-op"
+  | ["ev", op, a, b] =>
+    match parseEV? a, parseEV? b with
+    | some a, some b =>
+      if op == "sub" then showEV (EV.sub a b)
+      else if op == "gt" then showBool (EV.gt a b)
+      else if op == "ge" then showBool (EV.ge a b)
+      else if op == "fmax" then showEV (EV.fmax a b)
+      else if op == "pymax" then showEV (EV.pyMax a b)
+      else "bad-op"
+    | _, _ => "bad-op"
+  | ["ev", op, l] =>
+    match parseList? parseEV? l with
+    | some l =>
+      if op == "npmax" then showEV (npMax l)
+      else if op == "nanmax" then showEV (nanmax l)
+      else "bad-op"
+    | none => "bad-op"
+  | _ =>
+    match population? toks with
+    | some p => showPop? p
+    | none => "bad-op"
+
 end NessaiVerif.Driver.Pool
